@@ -48,8 +48,8 @@ m("C12-append-published", "C12", [(CACHE,
   "\tc.specs = specs\n",
   "\tif c.specs == nil {\n\t\tc.specs = specs\n\t} else {\n\t\tfor v := range c.specs {\n\t\t\tc.specs[v] = c.specs[v][:0]\n\t\t}\n\t\tfor v, l := range specs {\n\t\t\tc.specs[v] = append(c.specs[v], l...)\n\t\t}\n\t}\n")], "refresh reuses the backing arrays of slices handed out by GetVendorSpecs")
 m("C12-missing-unlock-path", "C12", [(CACHE,
-  "\t\t\tm.Lock()\n\t\t\tif event.Op == fsnotify.Remove && w.tracked[event.Name] {",
-  "\t\t\tm.Lock()\n\t\t\tif event.Name == \"\" {\n\t\t\t\tcontinue\n\t\t\t}\n\t\t\tif event.Op == fsnotify.Remove && w.tracked[event.Name] {")], "a path leaves the critical section without Unlock")
+  "\t\t\tm.Lock()\n",
+  "\t\t\tm.Lock()\n\t\t\tif event.Name == \"\" {\n\t\t\t\tcontinue\n\t\t\t}\n")], "a path leaves the critical section without Unlock")
 m("C12-geterrors-unlocked-direrrors", "C12", [(CACHE,
   "\tfor path, errs := range c.errors {\n\t\terrors[path] = errs\n\t}\n\tfor path, err := range c.dirErrors {\n\t\terrors[path] = []error{err}\n\t}\n\n\treturn errors",
   "\tfor path, errs := range c.errors {\n\t\terrors[path] = errs\n\t}\n\tdirErrors := c.dirErrors\n\tc.Unlock()\n\tfor path, err := range dirErrors {\n\t\terrors[path] = []error{err}\n\t}\n\tc.Lock()\n\n\treturn errors")], "dirErrors (mutated in place by the watcher) ranged over outside the lock")
@@ -129,6 +129,20 @@ m("C09-sanitizer-wider", "C09", [(SPEC,
 b("benign-C04-empty-name-first", ["C04", "C02", "C14"], [(CACHE,
   "\t\td := c.devices[device]\n\t\tif d == nil {",
   "\t\tif device == \"\" {\n\t\t\tunresolved = append(unresolved, device)\n\t\t\tcontinue\n\t\t}\n\t\td := c.devices[device]\n\t\tif d == nil {")], "empty names classified as unresolved before the lookup: same result (no device has an empty name)")
+
+# ---------------------------------------------------------------- reverts of D14-D16
+SCHEMAGO = "schema/schema.go"
+m("C17-revert-D14", "C17", [(SCHEMAGO,
+  "\t\tdata, err = yaml.YAMLToJSON(data)\n\t\tif err != nil {\n\t\t\treturn fmt.Errorf(\"failed to YAML unmarshal data for validation: %w\", err)\n\t\t}\n\t}\n",
+  "\t\terr = yaml.Unmarshal(data, &any)\n\t\tif err != nil {\n\t\t\treturn fmt.Errorf(\"failed to YAML unmarshal data for validation: %w\", err)\n\t\t}\n\t\tdata, err = json.Marshal(any)\n\t\tif err != nil {\n\t\t\treturn fmt.Errorf(\"failed to JSON remarshal data for validation: %w\", err)\n\t\t}\n\t}\n")], "revert of fix D14: YAML numbers rounded to float64 before the schema sees them")
+m("C17-revert-D15", "C17", [(SCHEMAGO,
+  "\tif any == nil || s == nil || s.schema == nil {", "\tif any == nil || s == nil {")], "revert of fix D15: the none schema rejects documents through the content checks")
+m("C11-revert-D16", "C11", [(CACHE,
+  "\t\t\tif event.Op&(fsnotify.Remove|fsnotify.Rename) != 0 && w.tracked[event.Name] {",
+  "\t\t\tif event.Op == fsnotify.Remove && w.tracked[event.Name] {")], "revert of fix D16: a tracked directory renamed away stays marked as watched")
+m("C11-gone-only-rename", "C11", [(CACHE,
+  "\t\t\tif event.Op&(fsnotify.Remove|fsnotify.Rename) != 0 && w.tracked[event.Name] {",
+  "\t\t\tif event.Op&fsnotify.Rename != 0 && w.tracked[event.Name] {")], "a removed directory is no longer re-watched")
 
 # ---------------------------------------------------------------- C02
 m("C02-set-in-loop", "C02", [(CACHE,
@@ -486,8 +500,8 @@ m("C11-refresh-before-update", "C11", [(CACHE,
   "\t\t\t\tw.update(dirErrors)\n\t\t\t}\n\t\t\t_ = refresh()\n\t\t\tm.Unlock()",
   "\t\t\t\tw.update(dirErrors)\n\t\t\t}\n\t\t\tif event.Op != fsnotify.Remove {\n\t\t\t\t_ = refresh()\n\t\t\t}\n\t\t\tm.Unlock()")], "Remove events update the watch list but do not refresh")
 m("C11-update-not-readd", "C11", [(CACHE,
-  "\tfor _, dir = range removed {\n\t\tw.tracked[dir] = false\n",
-  "\tfor _, dir = range removed {\n\t\tdelete(w.tracked, dir)\n")], "a removed directory is forgotten instead of being re-added when it reappears")
+  "\t\t_ = w.watcher.Remove(dir)\n\t\tw.tracked[dir] = false\n",
+  "\t\t_ = w.watcher.Remove(dir)\n\t\tdelete(w.tracked, dir)\n")], "a removed directory is forgotten instead of being re-added when it reappears")
 m("C11-update-reports-false", "C11", [(CACHE,
   "\t\t\tw.tracked[dir] = true\n\t\t\tdelete(dirErrors, dir)\n\t\t\tupdate = true\n",
   "\t\t\tw.tracked[dir] = true\n\t\t\tdelete(dirErrors, dir)\n")], "a directory that appeared late is watched but its current content is never loaded")
@@ -560,7 +574,7 @@ m("C19-listdevices-other-cache", "C19", [(API,
 DEFS = "schema/defs.json"
 SCHEMAJSON = "schema/schema.json"
 m("C17-revert-D10-data", "C17", [(SCHEMA,
-  "\t} else {\n\t\t// Decode for the content checks below. Syntax errors are reported\n\t\t// by the schema validation of the same data.\n\t\t_ = json.Unmarshal(data, &any)\n\t}\n", "\t}\n")], "revert of fix D10: JSON bytes skip the annotation content check")
+  "\t// Decode for the content checks below. Syntax errors are reported\n\t// by the schema validation of the same data.\n\t_ = json.Unmarshal(data, &any)\n", "\tif !bytes.HasPrefix(bytes.TrimSpace(data), []byte{'{'}) {\n\t\t_ = json.Unmarshal(data, &any)\n\t}\n")], "revert of fix D10: JSON bytes skip the annotation content check")
 m("C17-revert-D10-file", "C17", [(SCHEMA,
   "func (s *Schema) ValidateFile(path string) error {\n",
   "func (s *Schema) ValidateFile(path string) error {\n\tif filepath.Ext(path) == \".json\" {\n\t\treturn s.validate(schema.NewReferenceLoader(\"file://\" + path))\n\t}\n\n")], "revert of fix D10: .json files bypass ValidateData")
